@@ -36,7 +36,11 @@ TRUSTED = [
     "queue, channel queue, barrier queue), a suspended queue runs nothing (C06), the group counts outstanding enters and "
     "submits a notification registered at count zero at once (C07); the leave that reaches zero is modelled as coded "
     "(detaches the list in a later step only when HAS_NOTIFS was set in the state its atomic add returned)",
-    "C14_cleanup_once_after_handlers is not proved (fd_entry reference counting, close_queue resume chain); oracle only",
+    "C14_cleanup_once_after_handlers is not proved (fd_entry reference counting, close_queue resume chain); handler "
+    "re-entry has no theorem (one serial op_q per operation + C02); both oracle only",
+    "progress (C14_no_stuck_*, C14_*_completes_when_ready) is about the per-operation automaton with a descriptor that is "
+    "ready at every attempt; that a source re-runs the handler when the descriptor becomes ready is C15/C16, and that "
+    "cleanups reach the operation is the routing fixed in /repo (corpus scenarios gen_barrier_hang)",
     "a data object is modelled by its region list; create_subrange = trimming the region list (validated for C13)",
     "for regular files (disk path) a non-strict interval tick that races with _dispatch_operation_perform on another thread is "
     "assumed to act before or after perform's update of buf_len/total",
